@@ -306,6 +306,23 @@ def _explore(out, tier, seed, facts, replay):
                 if names_ != ["First", "Second"] or any(len(row) != 3 for row in rows):
                     out.violation("legend-climatology", "verif qa.txt qb.txt %s qc.txt -leg First,Second -m fcst -type %s: header %r over rows of %r columns; expected the two titles over two score columns"
                                   % (copt, typ, header, sorted({len(row) for row in rows})), {"argv": argv})
+            # (a2) two columns that carry the same title (-leg Model,Model; or the same file name in two directories): each column still
+            #      holds ITS file's numbers
+            argv = ["verif", fa_, fb_, "-leg", "Model,Model", "-m", "fcst", "-x", "leadtime", "-type", typ]
+            r = run_cli(argv)
+            nf += 1
+            if r[0] == "ok":
+                header, rows = parse_csv(r[1]) if typ == "csv" else parse_text(r[1])
+                for row in rows:
+                    l_ = float(row[0])
+                    w1_, w2_ = mean_(ra_, l_, 1), mean_(rb_, l_, 1)
+                    tol_ = (1e-4 if typ == "csv" else 5e-3)
+                    if len(row) != 3 or abs(float(row[1]) - w1_) > tol_ * max(1.0, abs(w1_)) or abs(float(row[2]) - w2_) > tol_ * max(1.0, abs(w2_)):
+                        out.violation("same-title-columns", "verif qa.txt qb.txt -leg Model,Model -m fcst -type %s: the row of lead time %g reads %r; the two files' mean forecasts there are %r and %r"
+                                      % (typ, l_, row, w1_, w2_), {"argv": argv, "qa.txt": open(fa_).read(), "qb.txt": open(fb_).read()})
+                        break
+            else:
+                out.violation("same-title-columns:%s" % r[0], "verif qa.txt qb.txt -leg Model,Model -m fcst -type %s ends with %s %s" % (typ, r[0], r[1][:150]), {"argv": argv})
             # (b) obsfcst with two quantiles and two files: every named column holds that file's mean of that quantity
             argv = ["verif", fa_, fb_, "-m", "obsfcst", "-q", "0.1,0.9", "-x", "leadtime", "-type", typ]
             r = run_cli(argv)
